@@ -151,6 +151,10 @@ class Ops:
                 if len(ra.items) != len(rb.items):
                     return FALSE
                 return z3.And(*[self.eq(x, y) for x, y in zip(ra.items, rb.items)]) if ra.items else TRUE
+            if isinstance(a, SSet) and isinstance(b, SSet):
+                from . import builtins_model as BM
+
+                return z3.And(BM._subset(self.I, a, b), BM._subset(self.I, b, a))
             raise Unsupported("list equality on symbolic lists")
         if isinstance(a, SDict) and isinstance(b, SDict):
             if a.did == b.did:
